@@ -111,7 +111,11 @@ class _SynodicInterface(
         options: SynodicMapOptions,
     ) -> _SynodicMapProblem:
 
-        normal = _SynodicSectionInterface.axis_normal(config.section_axis)
+        # An explicit normal overrides the axis, as documented on SynodicMapConfig.
+        if config.section_normal is not None:
+            normal = np.asarray(config.section_normal, dtype=float)
+        else:
+            normal = _SynodicSectionInterface.axis_normal(config.section_axis)
         offset = config.section_offset
         plane_coords = config.plane_coords
         direction = config.direction
@@ -123,7 +127,8 @@ class _SynodicInterface(
             normal=normal,
             offset=offset,
             trajectories=trajectories,
-            interp_kind=config.interp_kind,
+            # The config holds a RefineConfig (or the plain string); the backend compares with "cubic".
+            interp_kind=getattr(config.interp_kind, "interp_kind", config.interp_kind),
             segment_refine=options.refine.segment_refine,
             tol_on_surface=options.refine.tol_on_surface,
             dedup_time_tol=options.refine.dedup_time_tol,
